@@ -111,6 +111,7 @@ def build(tape, run):
         i.npos = 1 + tape.draw(2)
         i.kwnames = ['kw', 'opt'][:tape.draw(3)]
         i.resolver = i.kind == 'instance' and tape.draw(3) == 2
+        i.mutates_args = tape.draw(4) == 3      # the recorded body changes its arguments in place; the key is that of the call
         c = tape.draw(4)
         base = 1 if i.kind != 'static' else 0
         if c == 2:
